@@ -98,6 +98,12 @@ def o2_8_db_recover(mir, tier):
                     def some(x): return BoolVal(isinstance(x, Enum) and x.tag == 'Some')
                     posts.append(('the initial manifest record lacks the file counter, WAL number or last sequence (the new database cannot be reopened)',
                                   And(some(e[vcf.index('curr_file_number')]), some(e[vcf.index('wal_file_number')]), some(e[vcf.index('prev_sequence_number')])) if e else BoolVal(False)))
+                    if e and 'create_manifest' in kinds and isinstance(e[vcf.index('curr_file_number')], Enum) and e[vcf.index('curr_file_number')].tag == 'Some':
+                        # the writer-side fact O2.6 relies on: the recorded file counter covers the number of the manifest itself
+                        from z3 import UGE
+                        mnum = evs[kinds.index('create_manifest')][1]; cnt = e[vcf.index('curr_file_number')].fields[0]
+                        posts.append(('the file counter in the initial manifest record does not cover the number of the manifest it is written to (the number is handed out again: the next manifest is written over this one while CURRENT names it)',
+                                      UGE(cnt, mnum) if not isinstance(mnum, int) else UGE(cnt, bv(mnum))))
             else:
                 posts += [('an unreadable CURRENT is treated as "no database": the database is initialised again', BoolVal(not init)),
                           ('DB::recover succeeds although CURRENT could not be read', BoolVal(not ok))]
@@ -107,7 +113,7 @@ def o2_8_db_recover(mir, tier):
                 posts.append(('the logs are replayed before the manifest was read', BoolVal('version_set_recover' in kinds and 'recover_logs' in kinds and kinds.index('version_set_recover') < kinds.index('recover_logs'))))
             res.cases['CURRENT %s: %s %s' % (current, 'Ok' if ok else 'Err', ','.join(kinds))] = 1
             for label, post, m in ex.check_posts(posts, pc):
-                res.violations.append({'label': label, 'events': [str(e)[:60] for e in evs], 'model': {str(x): mval(m, x) for x in (cim, eie)}, 'replay': ['reopen_modes'] if current != 'io-error' else ['unreadable_current']})
+                res.violations.append({'label': label, 'events': [str(e)[:60] for e in evs], 'model': {str(x): mval(m, x) for x in (cim, eie)}, 'replay': ['fresh_open_manifests'] if 'file counter in the initial' in label else (['reopen_modes'] if current != 'io-error' else ['unreadable_current'])})
         db = mir.mk_struct('DB', options={'abstract': True, '__ty': 'DbOptions'}, db_lock=Enum('Some', ({'abstract': True},)), file_name_handler={'abstract': True, '__ty': 'FileNameHandler'})
         g = mir.mk_struct('GuardedDbFields', version_set={'abstract': True, '__ty': 'VersionSet'})
         env = {'$state': {'events': []}, '$db': db, '$g': g, '$guard': Ref('$g')}
@@ -124,6 +130,8 @@ def o2_8_confirm(v, out):
     """Native: open with create_if_missing=false on an empty directory must fail and create nothing; a database is created,
     written and closed; open with error_if_exists must fail; a plain reopen must still find the data."""
     if out.get('_rc') != 0: return (False, 'native run failed: %s' % out.get('_stderr', '')[-300:])
+    if v['replay'][0] == 'fresh_open_manifests':
+        return (out.get('created_twice') == 'true', 'native: manifests created during the first open of a new database (reuse_log_files off): %s' % out.get('manifest_creates'))
     if v['replay'][0] == 'unreadable_current':
         bad = out.get('open_with_unreadable_current') != 'err' or out.get('mutating_ops_during_refused_open') != '0' or out.get('reopen_get') != 'v'
         return (bad, 'open with an unreadable CURRENT: %s, mutating file operations during it: %s, data after a later reopen: %s' % (out.get('open_with_unreadable_current'), out.get('mutating_ops_during_refused_open'), out.get('reopen_get')))
